@@ -779,6 +779,7 @@ func init() {
 		Assume: append([]string{"fixed two-pool configuration; request menu of 7 range lists; pre-allocation states free/other/own per configured IP"}, assumeIPAM...),
 		Rule: "all ordered lists of k<=K pairwise-disjoint range lists from a 7-entry menu x all pre-allocation states (each of the 6 configured IPs free / held by another key / already held by the pod, at most `prealloc` busy) x node in {n1,n2}; " +
 			"the real Bind is run fault-free and once per API-call index with that call failing; oracle: success => k distinct IPs, i-th in i-th list, routable, annotation order = request order; failure => the pod's IP set is unchanged; " +
+			"plus every schedule (bounded preemptions) of a two-range bind next to the pod-IP sync adopting an address inside a requested range: bound => exactly the k bound IPs held in tables and store, refused => none; " +
 			"distinct/non-trivial = distinct (request, state, node, fault position, outcome, resulting IP set)",
 		Jobs: func(tier string) []Job {
 			k, busy := 3, 3
@@ -789,9 +790,17 @@ func init() {
 			for s := 0; s < 16; s++ {
 				jobs = append(jobs, c08Job(s, 16, k, busy))
 			}
+			for _, sc := range c08ConcurrentScenarios(tier) {
+				jobs = append(jobs, ExploreJob("C08", sc, oracleC08Concurrent))
+			}
 			return jobs
 		}})
-	replayers["C08"] = replayDescOnly
+	replayers["C08"] = func(tier string, v coop.Violation) int {
+		if len(v.Choices) > 0 {
+			return replayExplore("C08", c08ConcurrentScenarios(tier), oracleC08Concurrent, v)
+		}
+		return replayDescOnly(tier, v)
+	}
 	register(&Property{ID: "C06", Level: "model_checking", QuickS: 100, ThoroughS: 900,
 		Assume: append([]string{"pool shapes from a 6-entry menu (node subnets pairwise identical or disjoint), 4 nodes (one per node subnet + one outside)"}, assumeIPAM...),
 		Rule: "all configurations of 1..P pools from the shape menu x all allocation states with at most B busy IPs x pods {fresh default, holder of each IP, 1 and 2 requested single-IP ranges, two-segment range, holder of one of two requested ranges, immutable deployment with each reserve IP}; " +
